@@ -73,7 +73,8 @@ Boundary of the precondition (native, /var/tmp probe): for a hand-built DAG - GP
 object x = (a and b) used twice, which deepcopy keeps shared - _GeneRemover({"a"}) returns `b` although the rule is False with
 `a` absent (the second visit sees the list the first one already shortened).  Rules parsed from text or built by from_symbolic
 are trees; the separation assumption is therefore load-bearing, not decoration.
-Native cross-check of the specifications (3000 random parsed trees x target sets x all absent sets): no deviation.
+Native cross-check of the specifications and of the assumed sympy / generic_visit behaviour (tools/crosscheck_c08_visitors.py:
+random parsed trees x target sets x all absent sets; symbolic round trip, copy, ==): no deviation.
 
 Mutation trials (tools/mutate_and_run.sh; every mutant left the named obligation unproved)
   delete.py  visit_Name: `None if ... else node` -> `node if ... else None`            visit_Name post.1 / post.2
